@@ -3,8 +3,10 @@ package main
 // `gocv check`: decide one property on the current working tree of /repo.
 
 import (
+	"go/constant"
 	"go/token"
 	"go/types"
+	"reflect"
 
 	"crypto/sha256"
 	"encoding/hex"
@@ -182,6 +184,17 @@ func runProperty(id, tier string, timeout int, overlay map[string][]byte, only s
 			}
 			if serves && (only == "" || strings.Contains(rc.Chan, only)) {
 				run.results = append(run.results, e.checkRecvOnly(rc))
+			}
+		}
+		for _, fm := range e.db.FlagMaps {
+			serves := false
+			for _, p := range fm.Props {
+				if p == id {
+					serves = true
+				}
+			}
+			if serves && (only == "" || strings.Contains(fm.Type, only) || strings.Contains("flagmap", only)) {
+				run.results = append(run.results, e.checkFlagMap(fm))
 			}
 		}
 		for _, mc := range e.db.MethodSets {
@@ -664,4 +677,321 @@ func (e *Engine) checkDistinct(dc *DistinctCheck) *FuncResult {
 		o.Query = "; " + msg
 	}
 	return res
+}
+
+// ---- flagmap: command-line flags against the configuration struct ------------------------------
+
+type cfgLeaf struct {
+	typ   types.Type
+	yaml  string
+	field string
+}
+
+func tagKey(tag, key, fieldName string) string {
+	v := reflect.StructTag(tag).Get(key)
+	if i := strings.Index(v, ","); i >= 0 {
+		v = v[:i]
+	}
+	if v == "" {
+		return strings.ToLower(fieldName) // both decoders fall back to the (case-folded) field name
+	}
+	return v
+}
+
+// cfgLeaves walks a configuration struct the way mapstructure does: nested structs (and
+// pointers to them) whose fields carry mapstructure/yaml tags are sections, everything else
+// is a leaf option.
+func cfgLeaves(t types.Type, mpath, ypath, fpath string, out map[string]cfgLeaf, skipped *[]string) {
+	st, ok := t.Underlying().(*types.Struct)
+	if !ok {
+		return
+	}
+	for i := 0; i < st.NumFields(); i++ {
+		f := st.Field(i)
+		if !f.Exported() {
+			continue
+		}
+		mk, yk := tagKey(st.Tag(i), "mapstructure", f.Name()), tagKey(st.Tag(i), "yaml", f.Name())
+		name := fpath + "." + f.Name()
+		if mk == "-" {
+			if yk != "-" {
+				out["-"+name] = cfgLeaf{typ: f.Type(), yaml: join(ypath, yk), field: name}
+			}
+			*skipped = append(*skipped, strings.TrimPrefix(name, "."))
+			continue
+		}
+		ft := f.Type()
+		if p, isPtr := ft.Underlying().(*types.Pointer); isPtr {
+			ft = p.Elem()
+		}
+		if sub, isStruct := ft.Underlying().(*types.Struct); isStruct && hasConfigTags(sub) {
+			cfgLeaves(ft, join(mpath, mk), join(ypath, yk), name, out, skipped)
+			continue
+		}
+		out[join(mpath, mk)] = cfgLeaf{typ: ft, yaml: join(ypath, yk), field: strings.TrimPrefix(name, ".")}
+	}
+}
+
+func join(a, b string) string {
+	if a == "" {
+		return b
+	}
+	return a + "." + b
+}
+
+func hasConfigTags(st *types.Struct) bool {
+	for i := 0; i < st.NumFields(); i++ {
+		tg := reflect.StructTag(st.Tag(i))
+		if tg.Get("mapstructure") != "" || tg.Get("yaml") != "" {
+			return true
+		}
+	}
+	return false
+}
+
+// flagKindFits: the pflag registration method against the field type.
+func flagKindFits(method string, t types.Type) bool {
+	under := t.Underlying()
+	isDur := func(t types.Type) bool {
+		n := namedOf(t)
+		return n != nil && n.Obj().Pkg() != nil && n.Obj().Pkg().Path() == "time" && n.Obj().Name() == "Duration"
+	}
+	switch strings.TrimSuffix(method, "P") {
+	case "String":
+		b, ok := under.(*types.Basic)
+		return ok && b.Kind() == types.String
+	case "Bool":
+		b, ok := under.(*types.Basic)
+		return ok && b.Kind() == types.Bool
+	case "Int":
+		b, ok := under.(*types.Basic)
+		return ok && b.Kind() == types.Int
+	case "Int64":
+		b, ok := under.(*types.Basic)
+		return ok && b.Kind() == types.Int64 && !isDur(t)
+	case "Uint":
+		b, ok := under.(*types.Basic)
+		return ok && b.Kind() == types.Uint
+	case "Uint64":
+		b, ok := under.(*types.Basic)
+		return ok && b.Kind() == types.Uint64
+	case "Uint32":
+		b, ok := under.(*types.Basic)
+		return ok && b.Kind() == types.Uint32
+	case "Float64":
+		b, ok := under.(*types.Basic)
+		return ok && b.Kind() == types.Float64
+	case "Duration":
+		if isDur(t) {
+			return true
+		}
+		if st, ok := under.(*types.Struct); ok && st.NumFields() == 1 && st.Field(0).Embedded() && isDur(st.Field(0).Type()) {
+			return true // a wrapper that embeds time.Duration (decoded by the duration hook)
+		}
+		return false
+	case "StringSlice":
+		sl, ok := under.(*types.Slice)
+		if !ok {
+			return false
+		}
+		b, ok := sl.Elem().Underlying().(*types.Basic)
+		return ok && b.Kind() == types.String
+	}
+	return false
+}
+
+func (e *Engine) checkFlagMap(fm *FlagMapCheck) *FuncResult {
+	key := fm.Pkg + "." + fm.Type + "$flagmap"
+	res := &FuncResult{Key: key, Unmodelled: map[string]int{}, Assumed: map[string]int{}, Notes: map[string]int{}, Inlined: map[string]int{}}
+	add := func(name, label, msg string) {
+		o := &Obligation{Func: key, Name: "ground[" + name + "]", Kind: "ground", Label: label, Where: fm.Where, Goal: tTrue}
+		if msg == "" {
+			o.Res = &SolveResult{Status: "unsat", Backend: "go/types"}
+		} else {
+			o.Res = &SolveResult{Status: "sat", Backend: "go/types", Output: msg}
+			o.Query = "; " + msg
+		}
+		res.Obls = append(res.Obls, o)
+	}
+	p := e.allPkgs[fm.Pkg]
+	if p == nil || p.Types == nil {
+		add("config-type", "config-type", "package not loaded")
+		return res
+	}
+	obj := p.Types.Scope().Lookup(fm.Type)
+	if obj == nil {
+		add("config-type", "config-type", "type "+fm.Type+" not found")
+		return res
+	}
+	leaves := map[string]cfgLeaf{}
+	var skipped []string
+	cfgLeaves(obj.Type(), "", "", "", leaves, &skipped)
+	if len(leaves) == 0 {
+		add("config-type", "config-type", "no option found in "+fm.Type)
+		return res
+	}
+	// every option has the same key in the file that is written and in the file that is read
+	for _, k := range sortedKeys(leaves) {
+		l := leaves[k]
+		if strings.HasPrefix(k, "-") {
+			add("yaml-eq-mapstructure:"+l.field, "yaml-eq-mapstructure", fmt.Sprintf("field %s is written to the file under %q but never read back (mapstructure:\"-\")", l.field, l.yaml))
+			continue
+		}
+		msg := ""
+		if l.yaml != k {
+			msg = fmt.Sprintf("field %s is written to the file as %q but read from it as %q", l.field, l.yaml, k)
+		}
+		add("yaml-eq-mapstructure:"+k, "yaml-eq-mapstructure", msg)
+	}
+	// the flags registered by the listed functions
+	exempt := map[string]bool{}
+	for _, x := range fm.Exempt {
+		exempt[x] = true
+	}
+	type reg struct {
+		name, method, where string
+		def                 ssa.Value
+	}
+	var regs []reg
+	nonConst := 0
+	for _, fname := range fm.Funcs {
+		fn := e.fnByKey[fm.Pkg+"."+fname]
+		if fn == nil || fn.Blocks == nil {
+			add("flags-of:"+fname, "flags-of", "function "+fname+" not found")
+			continue
+		}
+		n := 0
+		for _, b := range fn.Blocks {
+			for _, ins := range b.Instrs {
+				call, ok := ins.(ssa.CallInstruction)
+				if !ok {
+					continue
+				}
+				cc := call.Common()
+				callee := cc.StaticCallee()
+				if callee == nil || callee.Signature.Recv() == nil {
+					continue
+				}
+				rn := namedOf(callee.Signature.Recv().Type())
+				if rn == nil || rn.Obj().Name() != "FlagSet" || rn.Obj().Pkg() == nil || !strings.HasSuffix(rn.Obj().Pkg().Path(), "spf13/pflag") {
+					continue
+				}
+				sig := callee.Signature
+				if sig.Params().Len() < 3 || sig.Params().At(0).Name() != "name" {
+					continue // not a registration (Lookup, Set, ...)
+				}
+				n++
+				c, isConst := cc.Args[1].(*ssa.Const)
+				if !isConst || c.Value == nil || c.Value.Kind() != constant.String {
+					nonConst++
+					continue
+				}
+				regs = append(regs, reg{constant.StringVal(c.Value), callee.Name(), e.prog.Fset.Position(ins.Pos()).String(), cc.Args[2]})
+			}
+		}
+		msg := ""
+		if n == 0 {
+			msg = fname + " registers no flag"
+		}
+		add("flags-of:"+fname, "flags-of", msg)
+	}
+	msg := ""
+	if nonConst > 0 {
+		msg = fmt.Sprintf("%d flag registration(s) with a name that is not a constant", nonConst)
+	}
+	add("flag-names-constant", "flag-names-constant", msg)
+	sort.Slice(regs, func(i, j int) bool { return regs[i].name < regs[j].name })
+	seen := map[string]bool{}
+	for _, r := range regs {
+		if seen[r.name] {
+			add("flag-registered-once:"+r.name, "flag-registered-once", "flag "+r.name+" is registered twice")
+			continue
+		}
+		seen[r.name] = true
+		if exempt[r.name] {
+			continue
+		}
+		stripped := strings.TrimPrefix(r.name, fm.Strip)
+		l, ok := leaves[stripped]
+		switch {
+		case !ok:
+			add("flag-reaches-field:"+r.name, "flag-reaches-field", fmt.Sprintf("flag --%s is accepted, but the decoder has no option with key %q: its value is silently ignored", r.name, stripped))
+		case !flagKindFits(r.method, l.typ):
+			add("flag-reaches-field:"+r.name, "flag-reaches-field", fmt.Sprintf("flag --%s is registered with %s but field %s has type %s", r.name, r.method, l.field, l.typ))
+		default:
+			add("flag-reaches-field:"+r.name, "flag-reaches-field", "")
+			// the default shown for the flag is the default of the option it sets
+			root, path := defaultPathOf(r.def)
+			want := l.field
+			msg := ""
+			switch {
+			case root == "":
+				msg = fmt.Sprintf("the default of flag --%s is not read from the default configuration (%s)", r.name, r.def)
+			case path != want && path != want+".Duration":
+				msg = fmt.Sprintf("the default of flag --%s is read from %s.%s, but the flag sets %s", r.name, root, path, want)
+			}
+			add("flag-default-is-option-default:"+r.name, "flag-default-is-option-default", msg)
+		}
+	}
+	res.Notes[fmt.Sprintf("flagmap %s: %d options, %d flags, fields outside the decoder: %v", fm.Type, len(leaves), len(regs), skipped)]++
+	return res
+}
+
+// defaultPathOf recognises a value read from the default configuration: a chain of field
+// selections rooted at the package variable DefaultConfig (or a local copy of it), or at the
+// result of a Default<Section>Config() constructor (path prefixed by the section name).
+func defaultPathOf(v ssa.Value) (root, path string) {
+	var names []string
+	for {
+		switch x := v.(type) {
+		case *ssa.UnOp:
+			if x.Op != token.MUL {
+				return "", ""
+			}
+			v = x.X
+			continue
+		case *ssa.FieldAddr:
+			st := x.X.Type().Underlying().(*types.Pointer).Elem().Underlying().(*types.Struct)
+			names = append([]string{st.Field(x.Field).Name()}, names...)
+			v = x.X
+			continue
+		case *ssa.Field:
+			st := x.X.Type().Underlying().(*types.Struct)
+			names = append([]string{st.Field(x.Field).Name()}, names...)
+			v = x.X
+			continue
+		case *ssa.Global:
+			if x.Name() == "DefaultConfig" {
+				return "DefaultConfig", strings.Join(names, ".")
+			}
+			return "", ""
+		case *ssa.Alloc:
+			// a local copy: exactly one store, of the value of DefaultConfig or of a constructor result
+			var src ssa.Value
+			n := 0
+			for _, ref := range *x.Referrers() {
+				if st, ok := ref.(*ssa.Store); ok && st.Addr == x {
+					src = st.Val
+					n++
+				}
+			}
+			if n != 1 {
+				return "", ""
+			}
+			v = src
+			continue
+		case *ssa.Call:
+			callee := x.Call.StaticCallee()
+			if callee == nil || len(x.Call.Args) != 0 {
+				return "", ""
+			}
+			nm := callee.Name()
+			if strings.HasPrefix(nm, "Default") && strings.HasSuffix(nm, "Config") && len(nm) > len("DefaultConfig") {
+				sec := strings.TrimSuffix(strings.TrimPrefix(nm, "Default"), "Config")
+				return nm + "()", strings.Join(append([]string{sec}, names...), ".")
+			}
+			return "", ""
+		}
+		return "", ""
+	}
 }
